@@ -7,7 +7,8 @@ CONSTANTS Dev,        \* named deviations of the code from the property ({} = id
           Family,     \* which input family Init ranges over
           MaxTiny,    \* longest buffer of the "tiny" family
           MaxMid,     \* longest buffer of the "mid" family
-          CarryLens   \* explicit lengths tried in the "carry" family (besides "no length")
+          CarryLens,  \* explicit lengths tried in the "carry" family (besides "no length")
+          CarryTail   \* longest tail (0..2 bytes) appended to the 16-byte block in the "carry" family
 
 VARIABLE st
 
@@ -27,7 +28,7 @@ Init ==
       [] Family = "carry" ->
            \* every 16-byte block over {0x01, 0xff} (all carry patterns of four lanes over four words),
            \* followed by a 0..2 byte tail (signed chars), summed whole or with an explicit length
-           \E b \in [1..16 -> {1, 255}] : \E t \in {<<>>, <<128>>, <<255, 128>>} : \E l \in {-1} \cup CarryLens :
+           \E b \in [1..16 -> {1, 255}] : \E t \in {SubSeq(<<255, 128>>, 1, k) : k \in 0..CarryTail} : \E l \in {-1} \cup CarryLens :
                Try(Lit(b \o t), 0, l)
       [] Family = "pattern" ->
            \* long buffers around every multiple of 256 (the fold interval) and of 4 / 8 (stride, tail)
